@@ -389,6 +389,7 @@ Section Sim.
     intros rows st HP HS. unfold pk_exec, spec_exec.
     apply (exec_sim pk_begin (pk_insert sch) (pk_delete sch) (pk_update sch) (pk_commit sch)
                     sp_begin (sp_insert sch) (sp_delete sch) (sp_update sch) (sp_commit sch) sch U Pre R).
+    - split; constructor.
     - intros r [_ H]. exact H.
     - exact begin_sim.
     - exact insert_sim.
